@@ -324,7 +324,7 @@ gen(uint64_t seed, const std::string& tier, long idx)
       Op o;
       const int k = (int)r.below(100);
       o.kind = k < 30 ? "run"
-                      : (k < 42 ? "act" : (k < 52 ? "dens" : (k < 62 ? "spimg" : (k < 70 ? "tmpl" : (k < 80 ? "energy" : (k < 87 ? "cache" : (k < 94 ? "clock" : "setup")))))));
+                      : (k < 42 ? "act" : (k < 51 ? "dens" : (k < 60 ? "spimg" : (k < 68 ? "tmpl" : (k < 77 ? "energy" : (k < 90 ? "cache" : (k < 95 ? "clock" : "setup")))))));
       for (int j = 0; j < 2; ++j)
         o.a.push_back((long)r.below(1000000));
       p.ops.push_back(o);
@@ -332,6 +332,35 @@ gen(uint64_t seed, const std::string& tier, long idx)
   Op last;
   last.kind = "run";
   p.ops.push_back(last);
+  // a share of the histories is built around the cache switches: filled caches, switched off, something changes, switched on
+  if (r.chance(0.25))
+    {
+      p.ops.clear();
+      auto push = [&](const char* kind, long a0, long a1) {
+        Op o;
+        o.kind = kind;
+        o.a.push_back(a0);
+        o.a.push_back(a1);
+        p.ops.push_back(o);
+      };
+      p.cfg["cache0"] = 1;
+      const long how_off = (long)r.below(2), how_on = (long)r.below(2); // which of the two public switches
+      push("run", 0, 0);
+      push("cache", 0, how_off);
+      static const char* change[] = { "act", "dens", "energy", "spimg", "act" };
+      const int nchanges = (int)r.range(1, 2);
+      for (int i = 0; i < nchanges; ++i)
+        push(change[r.below(5)], (long)r.below(1000000), (long)r.below(1000000));
+      if (r.chance(0.5))
+        push("run", 0, 0);
+      push("cache", 1, how_on);
+      push("run", 0, 0);
+      if (r.chance(0.3))
+        {
+          push("act", (long)r.below(1000000), 0);
+          push("run", 0, 0);
+        }
+    }
 #endif
   return p;
 }
